@@ -1,13 +1,37 @@
 package main
 
 import (
+	"encoding/json"
+	"fmt"
+	"os"
+
 	plugin "github.com/gogo/protobuf/protoc-gen-gogo/plugin"
+	"verifharness/extract"
 
 	"verifharness/desc"
 	"verifharness/pipe"
 )
 
-func dispatch(cmd string, args []string) bool { return false }
+func dispatch(cmd string, args []string) bool {
+	switch cmd {
+	case "extract":
+		repo, out := "/repo", "/verif/lean/PGT/Generated"
+		if len(args) > 0 {
+			repo = args[0]
+		}
+		if len(args) > 1 {
+			out = args[1]
+		}
+		failed := extract.Run(repo, out)
+		b, _ := json.Marshal(failed)
+		fmt.Println(string(b))
+		if len(failed) > 0 {
+			os.Exit(3)
+		}
+		return true
+	}
+	return false
+}
 
 func pipeGogoReq(b *pipe.Batch) *plugin.CodeGeneratorRequest {
 	return desc.BuildRequest(&b.Case.Request, desc.WKTParam)
